@@ -75,6 +75,20 @@ def c14_ok (H : HashFn) (D : Decomp) (f : Bytes) (k : Nat) (comp : Bool) (ret : 
         | none => false
     | _, _ => false
 
+/-- **C14 (short buffer)**: a data request with a buffer of `n` bytes, smaller than the chunk, returns the first `n` bytes of the chunk's content -/
+def c14_prefix_ok (H : HashFn) (D : Decomp) (f : Bytes) (k n : Nat) (ret : Int) (out : String) : Bool :=
+  match parse H f with
+  | none => false
+  | some h =>
+    match h.chunks[k]?, h.chunks.head? with
+    | some c, some d =>
+      if c.len = 0 then ret == 0 else
+      let dict := if d.len = 0 then none else plainChecked H D h f none d
+      match plainChecked H D h f (if k = 0 then none else dict) c with
+      | some p => ret == ((min n c.len : Nat) : Int) && showBytes (p.take n) == out
+      | none => false
+    | _, _ => false
+
 /-- what a scan must report for chunk `c`: 1 iff its stored bytes are all there and hash to the index checksum -/
 def chunkTruth (H : HashFn) (h : Hdr) (f : Bytes) (c : Chunk) : Int :=
   if (storedChecked H h f c).isSome then 1 else -1
